@@ -38,13 +38,13 @@ FILES = {
     "pkg/conversion/conversion.go": ["C18", "C19"],
     "pkg/conversion/definition.go": ["C18"],
     "node.go": ["C10", "C11", "C12", "C08", "C09", "C16"],
-    "channel.go": ["C10", "C11", "C12", "C13", "C14", "C16"],
+    "channel.go": ["C10", "C11", "C12", "C13", "C14", "C16", "C09"],
     "channel_provider.go": ["C12", "C14", "C10"],
-    "endpoint_client.go": ["C14", "C12"],
-    "endpoint_serial.go": ["C14", "C12"],
+    "endpoint_client.go": ["C14", "C12", "C10", "C11"],
+    "endpoint_serial.go": ["C14", "C12", "C10", "C11"],
     "endpoint_server.go": ["C14", "C12", "C10"],
     "endpoint_custom.go": ["C12", "C10"],
-    "endpoint_broadcast.go": ["C12", "C14", "C10"],
+    "endpoint_broadcast.go": ["C12", "C14", "C10", "C11"],
     "node_heartbeat.go": ["C16", "C12"],
     "node_stream_request.go": ["C16", "C12", "C15", "C10"],
 }
